@@ -363,24 +363,25 @@ func c12Fresh(ty c12Type, tree *C12Msg, bi *c12BuildInfo) (proto.Message, error)
 // ---- classification --------------------------------------------------------------------
 
 type c12Stats struct {
-	depth        int // deepest present sub-message below the root
-	sub          int // present sub-messages (singular)
-	subEmpty     int // present but empty non-wrapper sub-messages
-	optSet       int // present wrappers with a non-zero value
-	optZero      int // present wrappers holding the zero value
-	mapPop       int
-	mapEmpty     int
-	listPop      int
-	listMsgPop   int
-	listEmpty    int
-	enumUnknown  int
-	longStr      int
-	negInt       int
-	scalarSet    int
-	scalarZero   int // scalar field listed with its zero value (absent on the wire)
-	emptyKey     int
-	multiByteStr int
-	longBy       map[string]bool
+	depth                                  int // deepest present sub-message below the root
+	sub                                    int // present sub-messages (singular)
+	subEmpty                               int // present but empty non-wrapper sub-messages
+	optSet                                 int // present wrappers with a non-zero value
+	optZero                                int // present wrappers holding the zero value
+	mapPop                                 int
+	mapEmpty                               int
+	listPop                                int
+	listMsgPop                             int
+	listEmpty                              int
+	enumUnknown                            int
+	longStr                                int
+	negInt                                 int
+	scalarSet                              int
+	scalarZero                             int // scalar field listed with its zero value (absent on the wire)
+	emptyKey                               int
+	multiByteStr                           int
+	longBy                                 map[string]bool
+	subEmptyDeep, subEmptyDeep3, elemEmpty int
 }
 
 func c12IsZero(fd protoreflect.FieldDescriptor, v C12Val) bool {
@@ -506,6 +507,9 @@ func c12Walk(md protoreflect.MessageDescriptor, tree *C12Msg, depth int, st *c12
 			}
 			for _, e := range f.L {
 				if fd.Kind() == protoreflect.MessageKind {
+					if e.M == nil || len(e.M.F) == 0 {
+						st.elemEmpty++
+					}
 					if e.M != nil {
 						c12Walk(fd.Message(), e.M, depth+1, st)
 					} else if depth+1 > st.depth {
@@ -535,6 +539,12 @@ func c12Walk(md protoreflect.MessageDescriptor, tree *C12Msg, depth int, st *c12
 				}
 			} else if len(f.V.M.F) == 0 {
 				st.subEmpty++
+				if depth >= 1 {
+					st.subEmptyDeep++
+				}
+				if depth >= 3 {
+					st.subEmptyDeep3++
+				}
 			}
 			c12Walk(sub, f.V.M, depth+1, st)
 		default:
@@ -566,6 +576,9 @@ func c12Classes(origin string, tree *C12Msg, ty c12Type) ([]string, bool) {
 	}
 	add(st.sub, "sub_present")
 	add(st.subEmpty, "sub_empty")
+	add(st.subEmptyDeep, "sub_empty_depth>=2")
+	add(st.subEmptyDeep3, "sub_empty_depth>=4")
+	add(st.elemEmpty, "list_elem_empty")
 	add(st.optSet, "opt_nonzero")
 	add(st.optZero, "opt_zero")
 	add(st.mapPop, "map_populated")
@@ -659,6 +672,7 @@ func c12Judge(m, want proto.Message, ty c12Type, vtFirst bool) (verdict string, 
 	// gets the overwrite + proto.Equal comparison.
 	var wantDet []byte
 	reencoded := map[bool]bool{}
+	last := map[bool]proto.Message{} // per decoder: the message decoded last (its input since overwritten)
 	decode := func(what, from string, src []byte, useVT bool) string {
 		step = what
 		in := append([]byte(nil), src...)
@@ -696,6 +710,7 @@ func c12Judge(m, want proto.Message, ty c12Type, vtFirst bool) (verdict string, 
 			return fmt.Sprintf("%s: %s changed when the input buffer was overwritten after decoding (the decoded message aliases the buffer): now {%s} want {%s}", name, what, c12Text(got), c12Text(want))
 		}
 		clear(in)
+		last[useVT] = got
 		if reencoded[useVT] {
 			return ""
 		}
@@ -792,16 +807,35 @@ func c12Judge(m, want proto.Message, ty c12Type, vtFirst bool) (verdict string, 
 		}
 		return ""
 	}
+	first, second := protoBlock, vtBlock
 	if vtFirst {
-		if v := vtBlock(); v != "" {
-			return v, hist, hasVT
-		}
-		return protoBlock(), hist, hasVT
+		first, second = vtBlock, protoBlock
 	}
-	if v := protoBlock(); v != "" {
+	if v := first(); v != "" {
 		return v, hist, hasVT
 	}
-	return vtBlock(), hist, hasVT
+	if v := second(); v != "" {
+		return v, hist, hasVT
+	}
+	// decoded objects are independent of each other (per decoder)
+	for _, useVT := range []bool{true, false} {
+		if useVT && !hasVT {
+			continue
+		}
+		// the reflection decoder is one generic routine of the protobuf library, not per-type
+		// code: it gets this step for a quarter of the cases (chosen by the encoding's length,
+		// so a replay makes the same choice), the specialised decoder for every case
+		if !useVT && hasVT && len(b1)%4 != 0 {
+			continue
+		}
+		if earlier := last[useVT]; earlier != nil {
+			step = fmt.Sprintf("independence of decoded messages (vt=%v)", useVT)
+			if v := c12Independence(ty, want, earlier, b1, useVT, hist); v != "" {
+				return v, hist, hasVT
+			}
+		}
+	}
+	return "", hist, hasVT
 }
 
 var c12Ones []byte
